@@ -173,6 +173,8 @@ type hopSession struct {
 	msg  *HopMsg
 	plan map[string]string
 	tx   *HopTx
+	// the server closes the connection once the reply to DATA is on the wire
+	goneAfterData bool
 }
 
 func (s *hopSession) get(keys ...string) string {
@@ -214,8 +216,16 @@ func (h *NextHop) NewSession(c *smtp.Conn) (smtp.Session, error) {
 
 func (s *hopSession) AuthMechanisms() []string         { return nil }
 func (s *hopSession) Auth(string) (sasl.Server, error) { return nil, errors.New("no auth") }
-func (s *hopSession) Reset()                           { s.msg = nil; s.txDone() }
-func (s *hopSession) Logout() error                    { s.txDone(); return nil }
+func (s *hopSession) Reset() {
+	s.msg = nil
+	s.txDone()
+	if s.goneAfterData {
+		// go-smtp resets the session right after it has written the reply to DATA
+		s.goneAfterData = false
+		s.conn.Conn().Close()
+	}
+}
+func (s *hopSession) Logout() error { s.txDone(); return nil }
 
 func (s *hopSession) act(cls, what string) error {
 	if cls == "drop" {
@@ -290,6 +300,10 @@ func (s *hopSession) Data(r io.Reader) error {
 	s.h.mu.Lock()
 	s.h.Msgs = append(s.h.Msgs, *s.msg)
 	s.h.mu.Unlock()
+	if s.get("afterdata") == "drop" {
+		// the message is accepted; the server goes away before the client can say QUIT
+		s.goneAfterData = true
+	}
 	s.txDone()
 	return nil
 }
